@@ -37,7 +37,7 @@ def gen(d, tier):
     evs = []
     for i in range(d.rng(1, 3)):
         if d.below(2):
-            evs.append(S.mk_cmd(b"#A%d" % i, "", [G.g_var(d, max_buf=5, callbacks=False, access=(RO, RW))]))   # no description: its inner newline mirrors the line in progress and changes the text length
+            evs.append(S.mk_cmd(b"#A%d" % i, "", [G.g_var(d, max_buf=5, callbacks=False, access=(RO, RW)) for _ in range(d.rng(1, 3))]))   # no description: its inner newline mirrors the line in progress and changes the text length
         else:
             c = S.mk_cmd(b"#S%d" % i, "rt", [G.g_var(d, max_buf=4, callbacks=False, access=(RO,))] if d.below(2) else [])
             for k in "rt":
@@ -46,7 +46,7 @@ def gen(d, tier):
     lcs = []
     for j in range(d.rng(1, 3)):
         h = "".join(k for k in "wrnt" if d.chance(2, 3)) or "r"
-        c = S.mk_cmd([b"+A", b"+BB", b"+C"][j], h, [G.g_var(d, max_buf=5, callbacks=False)] if d.chance(2, 3) else [],
+        c = S.mk_cmd([b"+A", b"+BB", b"+C"][j], h, [G.g_var(d, max_buf=5, callbacks=False) for _ in range(d.rng(1, 3))] if d.chance(2, 3) else [],
                      desc=(b"help" if d.unlikely(1, 3) else None))
         for k in h:
             if d.chance(2, 3):
@@ -70,7 +70,7 @@ def gen(d, tier):
         ws.append(d.pick([0, 1, 1, 2, 3, 5, 9]) if j % 2 == 0 else d.pick([1, 1, 2, 3, 8, 25, 60]))
     uc = d.pick([16, 24, 32, 48])
     shared = d.below(2) == 0
-    s = S.mk_spec(cmds, input=inp, qcap=qcap, shared=shared, bufsz=2 * max(uc, 32) if shared else 48, ubufsz=uc,
+    s = S.mk_spec(cmds, input=inp, qcap=qcap, shared=shared, bufsz=(2 * max(uc, 32) + d.below(2)) if shared else d.pick([48, 49, 64]), ubufsz=uc,
                   rs=G.g_sched(d, 6), ws=ws, actions=actions)
     return dict(spec=s, meta=dict(nev=nev))
 
@@ -167,6 +167,13 @@ def run(case, W):
     tu, ru = tokens(tur.out)
     if rc or ru:
         return Result(violation=("partial-unit", "a solo run's output does not end with a newline: %r %r" % (rc, ru)), runs=3)
+    # structure of the units themselves (the matcher compares two runs of the same code, so it cannot see a change that is
+    # consistent in both): every event unit starts with a newline, every command response starts with one
+    for lead, body, nl in tu:
+        if body.startswith(b"#") and not lead:
+            return Result(violation=("unit-structure", "event unit %r has no leading newline (events-alone output %r)" % (body, tur.out)), runs=3)
+    if tc and not tc[0][0]:
+        return Result(violation=("unit-structure", "first command unit %r has no leading newline" % (tc[0][1],)), runs=3)
     ok, best = match(tm.out, tc, tu)
     if not ok:
         i, j, p = best
